@@ -10,6 +10,7 @@ import VsbModel.Model.Filter
 import VsbModel.Model.Walk
 import VsbModel.Model.Config
 import VsbModel.Model.FileReader
+import VsbModel.Model.Restore
 
 /-!
 Line-protocol driver for the executable models: one request per line `<op> <json>`, one JSON
@@ -469,6 +470,63 @@ def opFileReader (j : Json) : Except String Json := do
   let (out, n, hashed) := readFile (0 : Nat) src size bufs
   pure (Json.mkObj [("out", natsJson out), ("bytes_read", n), ("hashed", natsJson hashed)])
 
+/-! ## restore -/
+open Vsb.Restore in
+def parseMeta (j : Json) : Except String Meta := do
+  pure { mode := (← (← j.getObjVal? "mode").getNat?), uid := (← (← j.getObjVal? "uid").getNat?),
+         gid := (← (← j.getObjVal? "gid").getNat?), mtime := (← (← j.getObjVal? "mtime").getInt?) }
+
+open Vsb.Restore in
+/-- File data travels as (content id, length): a list of `length` copies of `id`; the hash of a prefix
+is looked up in the table the orchestrator computed with hashlib. -/
+def parseEntry (j : Json) : Except String (Entry Nat) := do
+  let t ← (← j.getObjVal? "type").getStr?
+  let path ← (← j.getObjVal? "path").getStr?
+  match t with
+  | "dir" => pure (.dir path (← parseMeta j))
+  | "file" => pure (.file path (← parseMeta j) (List.replicate (← (← j.getObjVal? "len").getNat?) (← (← j.getObjVal? "cid").getNat?)))
+  | "symlink" => pure (.symlink path (← parseMeta j) (← (← j.getObjVal? "target").getStr?))
+  | _ => pure (.other path)
+
+open Vsb.Restore in
+def metaJson : Option Meta → Json
+  | none => Json.null
+  | some m => Json.mkObj [("mode", m.mode), ("uid", m.uid), ("gid", m.gid), ("mtime", Json.num (JsonNumber.fromInt m.mtime))]
+
+open Vsb.Restore in
+def fsJson (fs : FS Nat) : Json :=
+  Json.arr (fs.map (fun e => match e.2 with
+    | .dir m => Json.mkObj [("path", "/".intercalate e.1), ("kind", "dir"), ("meta", metaJson m)]
+    | .file d m => Json.mkObj [("path", "/".intercalate e.1), ("kind", "file"), ("len", d.length),
+        ("cid", match d.head? with | some c => (c : Json) | none => Json.null), ("meta", metaJson m)]
+    | .symlink t m => Json.mkObj [("path", "/".intercalate e.1), ("kind", "symlink"), ("target", t), ("meta", metaJson (some m))])).toArray
+
+open Vsb.Restore in
+def opRestore (j : Json) : Except String Json := do
+  let emptyHash ← (← j.getObjVal? "empty_hash").getStr?
+  let table ← j.getObjVal? "hashes"
+  let hashOf : List Nat → String := fun l =>
+    match l with
+    | [] => emptyHash
+    | c :: _ => match table.getObjVal? (toString c ++ ":" ++ toString l.length) with
+      | .ok (.str h) => h
+      | _ => "unknown-hash-" ++ toString c ++ ":" ++ toString l.length
+  let group ← (← (← j.getObjVal? "group").getArr?).toList.mapM (fun b => do
+    let name ← (← b.getObjVal? "name").getStr?
+    let manifest ← match optField b "manifest" with
+      | .null => pure none
+      | m => do
+        let recs ← (← m.getArr?).toList.mapM (fun r => do
+          pure ({ unique := (← (← r.getObjVal? "unique").getBool?), hash := (← (← r.getObjVal? "hash").getStr?),
+                  size := (← (← r.getObjVal? "size").getNat?), path := (← (← r.getObjVal? "path").getStr?) } : MRec String))
+        pure (some recs)
+    let archive ← (← (← b.getObjVal? "archive").getArr?).toList.mapM parseEntry
+    pure ({ name := name, manifest := manifest, archive := archive, archiveComplete := boolField b "complete" true } : Backup String Nat))
+  let target ← (← j.getObjVal? "target").getNat?
+  match restore hashOf group target with
+  | .err fs => pure (Json.mkObj [("result", "err"), ("fs", fsJson fs)])
+  | .done fs ok => pure (Json.mkObj [("result", "done"), ("ok", ok), ("fs", fsJson fs)])
+
 def dispatch (op : String) (j : Json) : Except String Json :=
   match op with
   | "split" => opSplit j
@@ -481,6 +539,7 @@ def dispatch (op : String) (j : Json) : Except String Json :=
   | "filter" => opFilter j
   | "walk" => opWalk j
   | "filereader" => opFileReader j
+  | "restore" => opRestore j
   | "cfgload" => opCfgload j
   | "cfgpath" => opCfgpath j
   | "verify" => opVerify j
